@@ -918,12 +918,14 @@ Theorem check_lua_script_fails : forall o path file b script content0 content cl
   get_attr (T "check-lua") (b_attrs b) = Some script ->
   content_of file b = Ok content0 ->
   extract_content o (T "check-lua-pattern") E_LUA_PATTERN b content0 = Ok content ->
-  o_lua o script path content = Some (cls, msg) ->
+  o_lua o script (path ++ (58 : char) :: dec (fst (b_ts b))) content = Some (cls, msg) ->
   cls <> 0 -> cls <> 1 ->
   check_lua_block o path file b = Err E_LUA_SCRIPT.
 Proof.
   intros o path file b script content0 content cls msg H Hc Hx Hl H0 H1.
-  unfold check_lua_block. rewrite H, Hc. cbn [bind]. rewrite Hx. cbn [bind]. rewrite Hl.
+  unfold check_lua_block. rewrite H, Hc. cbn [bind]. rewrite Hx. cbn [bind].
+  match goal with |- context [o_lua o script ?p content] => change (o_lua o script p content) with (o_lua o script (path ++ (58 : char) :: dec (fst (b_ts b))) content) end.
+  rewrite Hl.
   destruct (cls =? 0) eqn:E0; [lia|]. destruct (cls =? 1) eqn:E1; [lia|]. reflexivity.
 Qed.
 
